@@ -316,11 +316,15 @@ def recoverMsg (j : Journal) (h : Handle) (dir : Dir) (seq : Bound) : Res :=
   | .msgs [] => .msg none
   | r => r
 
+/-- `if sessions is not None and len(sessions) != 0`: an empty filter list is no filter -/
+def normKeys : Option (List Int) → Option (List Int)
+  | some [] => none
+  | k => k
+
 /-- `Journaler.get_all_msgs()`; `keys` = the session filter (FIXSession objects ↦ their keys) -/
 def getAllMsgs (j : Journal) (keys : Option (List Int)) (dir : Option Dir) : Res :=
-  let keys := match keys with | some [] => none | k => k
-  if (keys.getD []).any (!fits ·) then .raised .overflow
-  else .rows (selAll j keys dir)
+  if ((normKeys keys).getD []).any (!fits ·) then .raised .overflow
+  else .rows (selAll j (normKeys keys) dir)
 
 /-- one call of a public method -/
 inductive Op
